@@ -135,6 +135,12 @@ var (
 	_ignoreRegex = regexp.MustCompile(
 		"^.+/repositories/.+/(_layers|_uploads|_manifests/(revisions|tags/.+/index)).*")
 	_stopRegex = regexp.MustCompile("^.+/repositories/.+/_manifests$")
+
+	// _tagRegex matches the directory of a tag and the link stored below it
+	// (<repo>/_manifests/tags/<tag>[/current[/link]]). A tag may be named like
+	// one of the directories the two hacks above look for (_layers, _uploads,
+	// _manifests); such a path is a tag, not something to skip or to stop at.
+	_tagRegex = regexp.MustCompile("^.+/repositories/.+/_manifests/tags/[^/]+(/current(/link)?)?$")
 )
 
 type listResult struct {
@@ -233,13 +239,14 @@ func (c *Client) List(prefix string, opts ...backend.ListOption) (*backend.ListR
 			// directory, however in WBU2 HDFS, there are blobs here as well. At some
 			// point, we must migrate the data into a structure which cleanly divides
 			// blobs and tags (like we do in S3).
-			if _ignoreRegex.MatchString(p) {
+			isTag := _tagRegex.MatchString(p)
+			if !isTag && _ignoreRegex.MatchString(p) {
 				continue
 			}
 
 			// TODO(codyg): Another ugly hack to speed up catalog performance by stopping
 			// early when we hit tags...
-			if _stopRegex.MatchString(p) {
+			if !isTag && _stopRegex.MatchString(p) {
 				p = path.Join(p, "tags/dummy/current/link")
 				fs.Type = "FILE"
 			}
